@@ -99,6 +99,16 @@ theorem setSlice_drop (buf : List Nat) (pos : Nat) (us : List Nat) (h : pos ≤ 
   rw [List.drop_of_length_le (by omega)]
   simp
 
+/-- copying inside the live prefix commutes with taking the live prefix -/
+theorem setSlice_take (buf : List Nat) (pos n : Nat) (us : List Nat) (hu : us.length = 13)
+    (h1 : pos + 13 ≤ n) (h2 : n ≤ buf.length) :
+    (setSlice buf pos us).take n = setSlice (buf.take n) pos us := by
+  unfold setSlice
+  have e1 : (List.take pos buf ++ us).length = pos + 13 := by simp [hu]; omega
+  rw [List.take_append, List.take_of_length_le (by omega), e1, List.take_take, List.drop_take]
+  congr 2
+  rw [Nat.min_eq_left (by omega)]
+
 theorem setSlice?_eq (buf : List Nat) (pos : Nat) (us : List Nat) (h : pos + 13 ≤ buf.length) :
     setSlice? buf pos us = some (setSlice buf pos us) := by
   simp [setSlice?, h]
